@@ -441,6 +441,75 @@ func programs() []prog {
 	return ps
 }
 
+// burstSizes: the action queue with bursts of every boundary size.  The
+// consumer is the client loop's pattern (wait for Ch, then Get, handle, go
+// back to waiting); two bursts of n1 and n2 elements arrive, the second one
+// either before or after the consumer has handled the first.  Every element
+// must be seen exactly once, in order, and the consumer must never be left
+// waiting on a silent Ch with elements still queued.
+func burstSizes(res *core.Result) core.Sub {
+	sub := core.Sub{Name: "queue/burst-sizes", Exhaustive: true}
+	var outc core.Outcomes
+	sizes := []int{0, 1, 2, 3}
+	for k := 2; k <= core.Pick(17, 20); k++ {
+		sizes = append(sizes, 1<<k-1, 1<<k, 1<<k+1)
+	}
+	for _, n1 := range sizes {
+		for _, n2 := range sizes {
+			if n1+n2 > 1<<core.Pick(17, 20)+2 {
+				continue
+			}
+			for _, early := range []bool{false, true} {
+				if !core.TimeLeft() {
+					sub.Exhaustive = false
+					continue
+				}
+				sub.Executions++
+				ch := unbounded.New[int]()
+				next, rounds := 0, 0
+				bad := ""
+				consume := func() {
+					for len(ch.Ch) > 0 && bad == "" {
+						<-ch.Ch
+						rounds++
+						for _, x := range ch.Get() {
+							if x != next {
+								bad = fmt.Sprintf("element %d was handed out where %d was due", x, next)
+								break
+							}
+							next++
+						}
+					}
+				}
+				for i := 0; i < n1; i++ {
+					ch.Put(i)
+				}
+				if !early {
+					consume()
+				}
+				for i := n1; i < n1+n2; i++ {
+					ch.Put(i)
+				}
+				consume()
+				sub.Transitions += int64(n1 + n2 + rounds)
+				if bad == "" && next != n1+n2 {
+					bad = fmt.Sprintf("the consumer is waiting on a silent Ch after %d wake-ups with %d of %d elements never handed out", rounds, n1+n2-next, n1+n2)
+				}
+				if bad != "" {
+					res.Violate(core.Violation{Signature: "C13/queue/lost-wakeup", Sub: sub.Name,
+						What:   fmt.Sprintf("bursts of %d and %d elements (second burst before the first was handled: %v): %s", n1, n2, early, bad),
+						Replay: map[string]any{"program": "queue/burst-sizes", "n1": n1, "n2": n2, "early": early}})
+					return sub
+				}
+				outc.Add(fmt.Sprint(rounds))
+			}
+		}
+	}
+	sub.States, sub.Outcomes = sub.Executions, outc.N()
+	sub.Bound = fmt.Sprintf("two bursts, each of every size in {0..3, 2^k-1, 2^k, 2^k+1 : k=2..%d}, second burst before or after the first is handled", core.Pick(17, 20))
+	return sub
+}
+
 var reFunc = regexp.MustCompile(`\(([^()]+)\)`)
 
 // classify builds line-independent signatures from the function names that
@@ -495,6 +564,9 @@ func main() {
 		res.Assume("scheduling points: every Lock/Unlock of the instrumented packages' mutexes, atomic operations, file operations, channel operations of unbounded; monitored fields: Group.{clients,locked,description,history,timestamp,data}, the registry and configuration, unbounded.Channel.queue")
 		res.Assume("clients other than WhipClient and the disk writer are recording fakes whose callbacks do not block")
 		core.Finish(res, t0)
+	}
+	if o.Shard == 0 && core.Want("queue/burst-sizes") {
+		res.AddSub(burstSizes(res))
 	}
 	// signalling-level program: the chat history under concurrent posting and
 	// replay (real webClients; handlers interleave at lock and channel operations)
@@ -611,6 +683,17 @@ func replay(path string) {
 	if err := json.Unmarshal(data, &a); err != nil {
 		fmt.Println(err)
 		os.Exit(2)
+	}
+	if a.Replay.Program == "queue/burst-sizes" {
+		// sequential and short: the whole enumeration is the replay
+		r := &core.Result{Property: "C13"}
+		burstSizes(r)
+		if len(r.Violations) > 0 {
+			fmt.Printf("VIOLATION property=C13 replay=%s\n  %s\n", path, r.Violations[0].What)
+			os.Exit(1)
+		}
+		fmt.Println("replay: no violation")
+		return
 	}
 	for _, p := range programs() {
 		if p.name == a.Replay.Program {
